@@ -896,6 +896,11 @@ def expectedAnswers (H : Hashes) (x : Bytes → Bool) : Tx → List Op → List 
   | t, .edit f :: r => expectedAnswers H x (f t) r
   | t, .query q :: r => freshAnswer H x t q :: expectedAnswers H x t r
 
+/-- replace the witness items of input `j` by `g items` (any in-place mutation of `witness.items`) -/
+def editWitness (j : Nat) (g : List Bytes → List Bytes) (t : Tx) : Tx :=
+  { t with ins := t.ins.zipIdx.map fun (p : TxIn × Nat) =>
+      if p.2 = j then { p.1 with witness := { items := g p.1.witness.items } } else p.1 }
+
 theorem run_repaired (H : Hashes) (x : Bytes → Bool) (ops : List Op) (o : TxObj) :
     run Cfg.repaired H x o ops = expectedAnswers H x o.tx ops := by
   induction ops generalizing o with
@@ -986,15 +991,23 @@ theorem reserialize_canonical (cs : List Cmd) (raw : Bytes) (wf : ∀ c ∈ cs, 
   have : rawSerialize { cmds := canon cs, raw := none } = some raw := by simp [rawSerialize, serCmds_canon, h]
   exact script_serialize_spec this (by omega)
 
+/-- `Witness.tap_script()` keeps the witness element in `raw`, so it serialises to exactly those bytes -/
+theorem tapScript_serialize (raw : Bytes) (hl : raw.length < 2 ^ 63) :
+    Script.serialize { parseRaw raw with raw := some raw } = some (Spec.Sighash.serScript raw) := by
+  have hr : rawSerialize { parseRaw raw with raw := some raw } = some raw := by
+    cases raw with
+    | nil => decide
+    | cons a l => simp [rawSerialize]
+  exact script_serialize_spec hr (by omega)
+
 /-- the leaf hash the code computes from the witness is BIP341's `hash_TapLeaf(v ‖ compact_size(s) ‖ s)` of
-    the script element, for a control block of valid shape and a canonically encoded tap script -/
+    the script element exactly as it is in the witness, for a control block of valid shape -/
 theorem tapLeafHash_spec (sha : Bytes → Bytes) (xonlyOK : Bytes → Bool) (w : Witness) (a : Bool) (v0 : UInt8)
     (cbt raw : Bytes)
     (ha : w.hasAnnex Cfg.repaired = some a) (hcb : fromEnd w.items (if a then 2 else 1) = some (v0 :: cbt))
     (hlen1 : (cbt.length + 1) % 32 = 1) (hlen2 : 33 ≤ cbt.length + 1) (hlen3 : cbt.length + 1 ≤ 4129)
     (hkey : xonlyOK (cbt.take 32) = true)
-    (hraw : fromEnd w.items (if a then 3 else 2) = some raw) (hrl : raw.length < 2 ^ 63)
-    (hcanon : Script.serialize (parseRaw raw) = some (Spec.Sighash.serScript raw)) :
+    (hraw : fromEnd w.items (if a then 3 else 2) = some raw) (hrl : raw.length < 2 ^ 63) :
     tapLeafHash Cfg.repaired sha xonlyOK w = some (Spec.Sighash.tapleafHash sha (v0.toNat &&& 0xFE) raw) := by
   have c0 : cmpAt Gen.cbParseCmp 0 ((cbt.length + 1) % 32) = false := by
     simp [cmpAt, Gen.cbParseCmp, cmpOp, hlen1]
@@ -1007,7 +1020,8 @@ theorem tapLeafHash_spec (sha : Bytes → Bytes) (xonlyOK : Bytes → Bool) (w :
     exact Nat.le_trans (Nat.and_le_left) (by omega)
   simp only [tapLeafHash, ha, hcb, hraw, Option.pure_def, Option.bind_eq_bind, Option.bind_some, List.length_cons,
     c0, c1, c2, Bool.false_eq_true, if_false, Bool.or_self, List.head?_cons, List.drop_succ_cons, List.drop_zero,
-    hkey, Bool.not_true, hrl, not_true_eq_false, hcanon, byteOf, hb, if_true, Spec.Sighash.tapleafHash, tapLeafTag_eq]
+    hkey, Bool.not_true, hrl, not_true_eq_false, tapScript_serialize raw hrl, byteOf, hb, if_true,
+    Spec.Sighash.tapleafHash, tapLeafTag_eq]
   rfl
 
 /-! ### the dispatcher on the standard output kinds -/
